@@ -356,6 +356,13 @@ func init() {
 	regAll([]string{"(time.Time).Format", "(time.Time).String"}, func(m *Machine, th *Thread, fn *ssa.Function, a []Value) (Value, bool) {
 		return strConst("<time>"), true
 	})
+	// the process environment is outside the model: empty unless a harness stubs these by name
+	reg("os.Getenv", func(m *Machine, th *Thread, fn *ssa.Function, a []Value) (Value, bool) {
+		return strConst(""), true
+	})
+	reg("os.LookupEnv", func(m *Machine, th *Thread, fn *ssa.Function, a []Value) (Value, bool) {
+		return TupleV{strConst(""), FalseT}, true
+	})
 	reg("time.Sleep", func(m *Machine, th *Thread, fn *ssa.Function, a []Value) (Value, bool) {
 		m.wantYield = "sleep"
 		return nil, true
